@@ -248,7 +248,15 @@ RefGlobal(I, r) ==
                           THEN TsRev(SelectSeq(taken, LAMBDA n : I.gOf[n] = g)) ELSE I.order[g]])
 
 \* (b) per graph, independently of every other graph: repeatedly take the LAST node of the graph's
-\*     own previous order none of whose dependants (DepOf) remains; reverse
+\*     own previous order none of whose dependants (DepOf) remains; reverse.
+\*     NOT A THEOREM.  RefPerGraph = SortedAt holds for every instance with <= 3 nodes (TLC,
+\*     InvRefPerGraph) and whenever there is a single graph, but TLC refutes it with 4 nodes:
+\*       order = <<<<3, 1, 2>>, <<4>>>>, node 3 owns graph 2, ins[3] = <<1, 1>>, ins[4] = <<2, 2>>
+\*       SortedAt gives <<2, 1, 3>> for graph 1, RefPerGraph gives <<1, 2, 3>>.
+\*     Nodes 1 and 2 do not depend on each other, yet their order is swapped: node 2 is released
+\*     by the nested node 4, which is queued after the enclosing node 3 has already released
+\*     node 1.  Both results satisfy the property (the clause Stable only speaks about orders that
+\*     are already topological); the operator is kept as the "ideal" stable order for comparison.
 RefGraph(I, g) ==
   LET S    == NodesIn(I, g)
       D    == DepOf(I, g)
